@@ -153,6 +153,16 @@ def run(ctx):
     _mb.rule_M_BINFILL(ctx)
     import tables as _t3
     _t3.rule_T_SPACE(ctx, _t3.Tables(ctx), models=("enum", "lex"))
+    # the kind of the value read back (task / sentence / term) is decided by slot presence alone, identically in both parsers (seed c11-h)
+    import c15 as _c15
+    _c15.rule_K_KIND(ctx)
+    # values are compared with `==`, and set-like components live in hash sets: equality of nested unordered compounds needs the semantic
+    # Eq (H-EQSHAPE) AND a hash that agrees with it and does not depend on enumeration order (H-ORDER / H-HASH) -- seeds c01-h, c17-h
+    import eqhash as _eqh
+    _st, _cap = _eqh.rule_H_STORAGE(ctx)
+    _classes = _eqh.rule_H_EQSHAPE(ctx, _st, _cap)
+    _eqh.rule_H_ORDER(ctx)
+    _eqh.rule_H_HASH(ctx, _st, _classes)
     ctx.undecided = ["equality of the two pipelines' values on every string (nesting, leniency on malformed input)"]
     ctx.assumptions = ["rustc HIR/name resolution is correct", "nar_dev_utils 0.42.3 dictionary semantics as read from its source"]
     ctx.trusted = ["rustc nightly front end (HIR, typeck)", "mirfacts driver", "python rule layer"]
